@@ -2369,8 +2369,15 @@ class ProvDocument(ProvBundle):
 
         :return: :py:class:`ProvDocument`
         """
-        document = ProvDocument(self._unified_records())
-        document._namespaces = self._namespaces
+        # the new document gets its own namespace manager with the same
+        # declarations (sharing the manager would let later changes of either
+        # document show up in the other)
+        document = ProvDocument(namespaces=self.namespaces)
+        default_namespace = self.get_default_namespace()
+        if default_namespace is not None:
+            document.set_default_namespace(default_namespace.uri)
+        for record in self._unified_records():
+            document.add_record(record)
         for bundle in self.bundles:
             unified_bundle = bundle.unified()
             document.add_bundle(unified_bundle)
